@@ -285,6 +285,13 @@ theorem zipRemove_spec (it : Iter) (d1 d2 : Deque) (m : Mem) (h1 : d1.Inv) (h2 :
       simp only
       refine ⟨tr, by rw [r2, s2]; rfl, r3, s3, tr, r4, s4, by rw [s5, r5]⟩
 
+/-- with room and an index in range `add_at` cannot fail (whatever it inserts where: D3 included) -/
+theorem addAt_ok_of_room (d : Deque) (x i : Nat) (m : Mem) (hi : d.Inv) (hidx : i < d.size) (hroom : d.size < d.cap) :
+    (d.addAt x i m).1 = .ok := by
+  by_cases h : (d.addAt x i m).1 = .ok
+  · exact h
+  · rcases ((addAt_inv d x i m hi).2.2.2 h).2 with ⟨_, h1⟩ | ⟨_, _, h1⟩ <;> omega
+
 /-- growth step used by `zip_iter_add`: expand when full -/
 def growIfFull (d : Deque) (m : Mem) : Stat × Deque × Mem :=
   if d.cap = d.size then d.expandCapacity m else (Stat.ok, d, m)
@@ -352,6 +359,17 @@ theorem zipAdd_refines_partial (it : Iter) (d1 d2 : Deque) (x y : Nat) (m : Mem)
     · have hne2 : ((growIfFull d2 (growIfFull d1 m).2.2).1 != Stat.ok) = false := by simp [b1]
       simp only [hne2, Bool.false_eq_true, if_false]
       left
+      have hok1 := addAt_ok_of_room (growIfFull d1 m).2.1 x it.index (growIfFull d2 (growIfFull d1 m).2.2).2.2 a2
+        (by rw [a4]; exact hi1) a5
+      have hok2 := addAt_ok_of_room (growIfFull d2 (growIfFull d1 m).2.2).2.1 y it.index
+        ((growIfFull d1 m).2.1.addAt x it.index (growIfFull d2 (growIfFull d1 m).2.2).2.2).2.2 b2
+        (by rw [b4]; exact hi2) b5
+      have hb1 : (((growIfFull d1 m).2.1.addAt x it.index (growIfFull d2 (growIfFull d1 m).2.2).2.2).1 != Stat.ok) = false := by
+        simp [hok1]
+      have hb2 : (((growIfFull d2 (growIfFull d1 m).2.2).2.1.addAt y it.index
+        ((growIfFull d1 m).2.1.addAt x it.index (growIfFull d2 (growIfFull d1 m).2.2).2.2).2.2).1 != Stat.ok) = false := by
+        simp [hok2]
+      simp only [hb1, hb2, Bool.false_eq_true, if_false]
       rcases addAt_refines_partial _ x it.index _ a2 (by rw [a4]; exact hD31) with
         ⟨p1, p2, p3, p4, _⟩ | ⟨_, _, _, _, p5, _⟩
       · rcases addAt_refines_partial _ y it.index _ b2 (by rw [b4]; exact hD32) with
@@ -418,6 +436,10 @@ theorem zipAdd_triple (it : Iter) (d1 d2 : Deque) (x y : Nat) (m : Mem) :
   simp only [fold1, fold2]
   split; · exact ⟨growIfFull_triple d1 m, rfl⟩
   split; · exact ⟨growIfFull_triple d1 m, growIfFull_triple d2 _⟩
-  exact ⟨(addAt_triple _ _ _ _).trans (growIfFull_triple d1 m), (addAt_triple _ _ _ _).trans (growIfFull_triple d2 _)⟩
+  split; · exact ⟨(addAt_triple _ _ _ _).trans (growIfFull_triple d1 m), growIfFull_triple d2 _⟩
+  split
+  · exact ⟨(removeAt_triple _ _ _).trans ((addAt_triple _ _ _ _).trans (growIfFull_triple d1 m)),
+      (addAt_triple _ _ _ _).trans (growIfFull_triple d2 _)⟩
+  · exact ⟨(addAt_triple _ _ _ _).trans (growIfFull_triple d1 m), (addAt_triple _ _ _ _).trans (growIfFull_triple d2 _)⟩
 
 end CC.Deque
